@@ -41,7 +41,10 @@ func cases(tier string) int { return inProcCases(tier) + cliCases(tier) }
 // every Nth case goes through the real binary: N chosen so that the CLI slice has cliCases(tier) members
 func isCLI(tier string, idx int) bool {
 	n := cases(tier) / cliCases(tier)
-	return idx%n == n-1 && idx/n < cliCases(tier)
+	block := idx / n
+	// the position inside the block moves from block to block so that the (slow) CLI cases are spread over
+	// all worker processes (case j runs on worker j mod k)
+	return block < cliCases(tier) && idx%n == (block*5+3)%n
 }
 
 var Check = &run.Check{
